@@ -199,11 +199,7 @@ func runC19(c *runCtx) {
 		if r < 2 {
 			res.sample(map[string]any{"args": args, "exit": out.exit, "failing_per_library": failing})
 		}
-		wantExit := 0
-		if len(failing) > 0 {
-			wantExit = 1
-		}
-		if out.exit != wantExit {
+		if (out.exit == 0) != (len(failing) == 0) {
 			key := "validate-exit"
 			if strict {
 				key = "validate-exit-strict"
@@ -333,6 +329,32 @@ func runC19(c *runCtx) {
 				if (viaFile.exit == 0) != (viaStdin.exit == 0) {
 					res.fail(sub[0]+"-exit-file-vs-stdin", fmt.Sprintf("%s exits %d on the file and %d on the same text from stdin", sub[0], viaFile.exit, viaStdin.exit), wit, nil)
 				}
+			}
+		}
+	}
+	// A2. large sets of files: the verdict does not depend on how many inputs fail (exit statuses are small numbers: a
+	// count of failures must not be what the process exits with), through arguments, a directory walk and every report format
+	for _, nBad := range []int{255, 256, 257, 512, c.n(300, 1024)} {
+		sub := fmt.Sprintf("many%d", nBad)
+		var names []string
+		for i := 0; i < nBad; i++ {
+			nm := fmt.Sprintf("%s/bad%04d.sql", sub, i)
+			write(nm, []string{"SELECT FROM", "SELECT 'open", "garbage here", "SELECT a FROM t WHERE"}[i%4])
+			names = append(names, nm)
+		}
+		write(sub+"/good.sql", "SELECT a FROM t")
+		for _, args := range [][]string{append([]string{"validate", "--quiet"}, names...), {"validate", "-r", sub}, append([]string{"validate", "--output-format", "json"}, names...)} {
+			out := runCLI(bin, dir, "", args...)
+			res.count(fmt.Sprintf("many|%d|%s", nBad, strings.Join(args[:2], " ")), true)
+			if out.exit == 0 {
+				res.fail("validate-exit", fmt.Sprintf("validate exits 0 although %d of the given files are rejected by the library", nBad), map[string]any{"args": args[:2], "rejected_files": nBad, "command": strings.Join(args[:min(len(args), 4)], " ") + " …"}, truncate(out.stderr, 200))
+			}
+		}
+		for _, args := range [][]string{append([]string{"lint"}, names[:min(nBad, 300)]...), append([]string{"format", "--check"}, names...)} {
+			out := runCLI(bin, dir, "", args...)
+			res.count(fmt.Sprintf("many|%d|%s", nBad, args[0]), true)
+			if args[0] == "format" && out.exit == 0 {
+				res.fail("format-exit", fmt.Sprintf("format --check exits 0 although none of the %d given files can be processed", nBad), map[string]any{"rejected_files": nBad}, truncate(out.stderr, 200))
 			}
 		}
 	}
